@@ -61,18 +61,32 @@ STRENGTH = {
     'C17e': 'hostile kind `wire_mutant`: bursts of members of the `Wire.tla` mutation families (the C06 generators) through the real `main_loop`',
     'C18e': 'initiator side with a second, different COOKIE (the responder\'s secret changes before the retry arrives)',
     'C20e': 'identities that are format templates / conversions (`{0.my_auth.psk}`, `%(psk)s`) on both sides',
+    'C02f': 'the "other secret" of `Auth.tla` is instantiated at every distance from the right one: a long secret that agrees with it on a prefix / a suffix, is one octet longer / shorter, or has a trailing blank',
+    'C03f': 'forgery family `processed-copy`: authentic messages the endpoint has ALREADY processed with the header (Message ID, exchange type, flags) rewritten and ciphertext + checksum untouched',
+    'C04f': '(was detected, then the harness crashed: a history found no CHILD_SA to rekey) a missing CHILD_SA / IKE_SA in a negotiation history is an oracle verdict (`child_missing`, `ike_missing`)',
+    'C05f': '`Wire.tla` `FieldProducts`: the fields of NOTIFY / DELETE / KE / ID / AUTH / TS payloads vary independently (also the combinations nobody sends itself)',
+    'C06f': 'every cleartext input is parsed twice: without keys and as received by an IKE_SA that has keys; every header of the universe with an empty / skipped-only chain',
+    'C08f': 'the role of an IKE_SA (`sa.init`: who started the exchange that created it) belongs to C08 - it decides the Initiator flag and the SPI positions',
+    'C09f': 'scenarios `estab3_soft` / `estab3_rekey`: three triggers of few kinds, so that what a refused exchange leaves behind shows in a later one',
+    'C11f': '`Negotiate.tla`: AES-CBC offered without Key Length (`E0`), an integrity transform offered with one (`I256k`) - the attribute is part of the identity in both directions',
+    'C13f': '`IkeTimers.tla` action `AnswerFollowUp`: the answer to a rekey makes the requester send the DELETE of what was replaced (`delold`, `deloldchild`) - a request with a schedule and a budget of its own',
+    'C14f': '`XfrmWire.tla` `EntryLists`: `create_policies` over ordered lists of 1-3 protect entries (ESP after AH, transport after tunnel), every request byte-compared with the intent of ITS entry',
+    'C15f': 'two ACQUIREs (different traffic) while each kind of request is outstanding: both wait, both are negotiated in order',
+    'C17f': 'the legitimate session of `MainLoop.tla` also rekeys the IKE_SA (the daemon\'s old IKE_SA waits in REKEYED while the timer section runs); `LegitSteps = 7`',
+    'C19f': '`Config.tla`: secrets with blanks / tabs / line ends at either end and of the other letter case; float values (`.inf`, `.nan`, `1.5`); the cross-key rule "not all algorithm lists empty"',
 }
 ANTICIPATED = {'C13c', 'C18c', 'C09d', 'C16d', 'C18d'}
+AFTER_REPORT = {'C01e'}       # strengthened after reading the agent's report, before the first evaluation: not counted as caught outright
 
 
 def main():
-    rows, counts = [], {1: [0, 0], 2: [0, 0], 3: [0, 0], 4: [0, 0], 5: [0, 0]}
+    rows, counts = [], {1: [0, 0], 2: [0, 0], 3: [0, 0], 4: [0, 0], 5: [0, 0], 6: [0, 0]}
     for p in sorted(glob.glob(os.path.join(VERIF, 'seeded', '*', 'meta.json'))):
         m = json.load(open(p))
         k = m['name']
         if not m.get('caught_by'):
             raise SystemExit(f'{k} is not caught')
-        outright = not m.get('history') and k != 'C07' and k not in ANTICIPATED
+        outright = not m.get('history') and k not in ('C07', 'C04f') and k not in ANTICIPATED and k not in AFTER_REPORT
         r = m.get('round', 1)
         counts[r][1] += 1
         counts[r][0] += 1 if outright else 0
@@ -80,7 +94,7 @@ def main():
     total = sum(c[1] for c in counts.values())
     out = ['### 0.7 Seeded changes: which check catches which change\n',
            f'{total} changes were written by fresh sub-agents (one per property and round) that saw **only the text of the property** and a scratch worktree of `/repo` -',
-           'nothing from `/verif`; rounds 2 to 5 were additionally told which ideas the earlier rounds had used and to stay away from them.  Each change compiles, leaves the',
+           'nothing from `/verif`; rounds 2 to 6 were additionally told which ideas the earlier rounds had used and to stay away from them.  Each change compiles, leaves the',
            'repository\'s test suite at 176 passed / 11 failed, comes with a demonstration (`demo_seed.py`: PASS on the original, FAIL on the change) and was confirmed by',
            '`harness/seedeval.py` in a fresh worktree before the check of its property was run on it (`VERIF_REPO=<worktree>`, quick tier).  Patch, demonstration and',
            '`meta.json` (what it needs to manifest, what was run, the outcome before and after strengthening) are in `/verif/seeded/<id>/`; none of them was ever applied to `/repo`.\n',
@@ -93,7 +107,7 @@ def main():
            '| seed | change | needs | caught outright | what was added when it was missed |', '|---|---|---|---|---|']
     for r in rows:
         out.append('| ' + ' | '.join(x.replace('|', '/') for x in r) + ' |')
-    out.append('\nSeveral times a seeded tree made the *harness* raise (exit 2) after or instead of reporting: an independent-codec error inside a replay (C07), the event')
+    out.append('\nSeveral times a seeded tree made the *harness* raise (exit 2) after or instead of reporting: an independent-codec error inside a replay (C07), a negotiation history that found no CHILD_SA to rekey (C04f), the event')
     out.append('description of a rejected trace (C08b, C09b), a comparison of addresses of two families (C15).  Each was an unguarded assumption of the harness about the')
     out.append('implementation\'s output; they were turned into reported mismatches.  Exit 2 remains reserved for failures of the machinery itself.\n')
     txt = '\n'.join(out) + '\n'
